@@ -7,6 +7,7 @@
 #![allow(unused_imports)]
 #![allow(unused_variables)]
 #![allow(static_mut_refs)]
+#![allow(unsafe_op_in_unsafe_fn)]
 
 pub mod spec;
 #[cfg(kani)]
@@ -16,4 +17,18 @@ pub mod stubs;
 pub mod h;
 
 #[cfg(kani)]
-mod c11;
+pub mod c11;
+#[cfg(kani)]
+pub mod arm;
+#[cfg(kani)]
+mod arms;
+#[cfg(kani)]
+mod c01;
+#[cfg(kani)]
+mod c02;
+#[cfg(kani)]
+mod c03;
+#[cfg(kani)]
+mod c04;
+#[cfg(kani)]
+mod cost_table;
